@@ -116,4 +116,12 @@ CHECKS = {
          "between value and output equals the model's prediction exactly; serialization never mutates the value; decoding never shares a typed container "
          "with, nor mutates, its input.",
     note="trusted base: the sharing model in vmc/checks/c18.py (origin in N and conversion-free elements, Optional positions inside collections rebuilt, nested dataclasses reached only by a codec default_dialect)"),
+ "C17": dict(engine="E1 schema-space", design_ref="6/C17",
+    technique="exhaustive enumeration of schemas and class-definition-site scenarios with settrace capture of every generated compile unit and bytecode enumeration of all global loads",
+    text="Every schema of depth <= 1 (2 in thorough) in module and <locals> class naming, plus 13 class kinds created by functional APIs x 12 shapes x "
+         "{function-local, not bound to its module} and 5 twin-qualified-name kinds x 4 shapes: (1) every compile unit the library execs is captured through "
+         "sys.settrace and every LOAD_GLOBAL/LOAD_NAME (with module attribute chains) in every code object is resolved against the function's globals and "
+         "builtins - this covers paths no input exercises; (2) success and error paths are provoked and no NameError/SyntaxError/library-made AttributeError "
+         "may appear in any exception chain; decoded objects must be instances of the very annotated class; DefaultDict factories must be classes or None.",
+    note="two open findings (classes bound by name instead of identity: not-a-module-attribute and twin qualified names) attributed by scenario site + clause; subclasses of builtins are accepted as their base class"),
 }
